@@ -725,6 +725,27 @@ func c09Interleave(tr *verifh.T, cfg []string, script [][]string, maxSteps int, 
 	n := len(script)
 	counts := make([]int, n)
 	emitted := 0
+	total := 1
+	for i := 0; i < n && total <= 1<<30; i++ {
+		total *= maxSteps + 1
+	}
+	if limit > 0 && total > limit {
+		// too many to enumerate: sample schedules uniformly instead of truncating the enumeration
+		r := verifh.NewRand(verifh.Seed(), fmt.Sprintf("c09-interleave-%d-%d", n, maxSteps))
+		for e := 0; e < limit; e++ {
+			var ops [][]string
+			for _, o := range script {
+				ops = append(ops, o)
+				for j := r.Intn(maxSteps + 1); j > 0; j-- {
+					ops = append(ops, c09Step)
+				}
+			}
+			ops = append(ops, closing...)
+			c09Exec(tr, verifh.Case{Cfg: cfg, Ops: ops})
+			tr.Count(stat+"_sampled", 1)
+		}
+		return
+	}
 	for {
 		var ops [][]string
 		for i, o := range script {
@@ -810,7 +831,7 @@ func TestVerif_C09(t *testing.T) {
 	// (a) bounded-exhaustive over schedules: every way of giving the worker 0..N steps after each
 	// client operation of a script
 	for _, sc := range c09Scripts() {
-		c09Interleave(tr, cfg, sc, verifh.Scale(3, 7), closing, "interleaving_cases", verifh.Scale(1100, 0))
+		c09Interleave(tr, cfg, sc, verifh.Scale(3, 7), closing, "interleaving_cases", verifh.Scale(1100, 70000))
 	}
 	// (b) random schedules
 	r := verifh.NewRand(verifh.Seed(), "c09")
